@@ -209,6 +209,10 @@ func (x *Exec) run() {
 		}
 		x.frameObligations(out, entrySt, penv)
 	}
+	// vacuity guard: the exit must be reachable under all the assumptions made on the way
+	if out.pc.S != "false" && !(x.fc != nil && x.fc.Flags["noreturn"]) {
+		x.obls = append(x.obls, &Obligation{Name: x.key + "/cover[exit]#1", Kind: "cover", Func: x.key, Text: "exit reachable (assumptions consistent)", PC: out.pc, Goal: False, NDecls: len(x.decls), NAssert: len(x.asserts)})
+	}
 	if x.fc != nil {
 		for _, lc := range x.fc.Loops {
 			if !lc.used {
@@ -428,7 +432,7 @@ func discharge(res *FuncResult, opts VerifyOpts, sem chan struct{}) {
 		wg.Add(1)
 		go func(o *Obligation) {
 			defer wg.Done()
-			r := run([]*Obligation{o}, false)
+			r := runT([]*Obligation{o}, 2)
 			// for a cover check "sat" is the good answer; "unknown" is tolerated (recorded)
 			o.Result = &r
 		}(o)
